@@ -82,11 +82,11 @@ func (g *gen) expr() string {
 	case 14:
 		return g.id() + " => {\n" + g.stmts(1+g.r.Intn(2)) + "}"
 	case 15:
-		return g.expr() + ":" + g.expr() + g.r.Pick([]string{"", ":2"})
+		return "[" + g.id() + " for " + g.id() + " in " + g.hexpr() + ":" + g.hexpr() + g.r.Pick([]string{"", ":2"}) + "]"
 	case 16:
 		return g.id() + "()" + g.r.Pick([]string{"!", "?", "?:" + g.expr()})
 	case 17:
-		return `"a${` + g.expr() + `}b$` + g.id() + `"`
+		return `"a${` + g.r.Pick([]string{g.id(), g.id() + "." + g.id(), g.id() + "(" + g.id() + ")", g.id() + "+1"}) + `}b$$"`
 	case 18:
 		return g.r.Pick([]string{"$home", "${home}", "$" + g.id()})
 	case 19:
@@ -104,7 +104,7 @@ func (g *gen) expr() string {
 	case 25:
 		return "(" + g.expr() + ")"
 	case 26:
-		return "[\n" + g.list(2, func() string { return g.list(2, g.expr, ", ") }, "\n") + "\n]"
+		return "[\n" + g.list(2, func() string { return g.list(2, g.hexpr, ", ") }, "\n") + "\n]"
 	case 27:
 		return "[]int{" + g.list(g.r.Intn(3), g.expr, ", ") + "}"
 	case 28:
@@ -117,6 +117,38 @@ func (g *gen) expr() string {
 		return "[" + g.expr() + " for " + g.id() + " in " + g.expr() + " for " + g.id() + " in " + g.expr() + "]"
 	case 32:
 		return "{for " + g.id() + " in " + g.expr() + " if " + g.expr() + "}"
+	default:
+		return g.id()
+	}
+}
+
+// hexpr: an expression that is safe in if/for/switch headers (no brace-initiated forms
+// outside parentheses).
+func (g *gen) hexpr() string {
+	g.depth++
+	defer func() { g.depth-- }()
+	if g.depth > 4 {
+		return g.id()
+	}
+	switch g.r.Intn(10) {
+	case 0:
+		return g.hexpr() + " " + g.r.Pick([]string{"+", "-", "*", "/", "==", "<", "&&", "!="}) + " " + g.hexpr()
+	case 1:
+		return g.id() + "(" + g.list(g.r.Intn(3), g.hexpr, ", ") + ")"
+	case 2:
+		return g.id() + "." + g.id()
+	case 3:
+		return g.id() + "[" + g.hexpr() + "]"
+	case 4:
+		return "(" + g.expr() + ")"
+	case 5:
+		return fmt.Sprint(g.r.Intn(100))
+	case 6:
+		return "[" + g.list(1+g.r.Intn(3), g.hexpr, ", ") + "]"
+	case 7:
+		return g.id() + "." + g.id() + "(" + g.hexpr() + ")"
+	case 8:
+		return "!" + g.id()
 	default:
 		return g.id()
 	}
@@ -147,25 +179,25 @@ func (g *gen) stmt() string {
 	case 2:
 		return g.r.Pick([]string{"println", "echo", "fmt.Println", "printf"}) + " " + g.list(1+g.r.Intn(3), g.expr, ", ")
 	case 3:
-		return "if " + g.expr() + " " + g.block()
+		return "if " + g.hexpr() + " " + g.block()
 	case 4:
-		return "if " + g.id() + " := " + g.expr() + "; " + g.expr() + " " + g.block() + " else if " + g.expr() + " " + g.block() + " else " + g.block()
+		return "if " + g.id() + " := " + g.hexpr() + "; " + g.hexpr() + " " + g.block() + " else if " + g.hexpr() + " " + g.block() + " else " + g.block()
 	case 5:
-		return "for " + g.id() + " in " + g.expr() + " " + g.block()
+		return "for " + g.id() + " in " + g.hexpr() + " " + g.block()
 	case 6:
-		return "for " + g.id() + ", " + g.id() + " in " + g.expr() + " if " + g.expr() + " " + g.block()
+		return "for " + g.id() + ", " + g.id() + " in " + g.hexpr() + " if " + g.hexpr() + " " + g.block()
 	case 7:
-		return "for i := 0; i < " + g.expr() + "; i++ " + g.block()
+		return "for i := 0; i < " + g.hexpr() + "; i++ " + g.block()
 	case 8:
-		return "for " + g.expr() + " " + g.block()
+		return g.r.Pick([]string{"for " + g.hexpr() + " " + g.block(), "for " + g.id() + " in " + g.hexpr() + ":" + g.hexpr() + " " + g.block(), "for " + g.id() + " in :" + g.hexpr() + ":2 " + g.block()})
 	case 9:
 		return "for {\nbreak\n}"
 	case 10:
-		return "for " + g.id() + " <- " + g.expr() + " " + g.block()
+		return "for " + g.id() + " <- " + g.hexpr() + " " + g.block()
 	case 11:
-		return "for " + g.id() + ", " + g.id() + " := range " + g.expr() + " " + g.block()
+		return "for " + g.id() + ", " + g.id() + " := range " + g.hexpr() + " " + g.block()
 	case 12:
-		return "switch " + g.expr() + " {\ncase 1, 2:\n" + g.stmts(1) + "fallthrough\ncase 3:\ndefault:\n" + g.stmts(1) + "}"
+		return "switch " + g.hexpr() + " {\ncase 1, 2:\n" + g.stmts(1) + "fallthrough\ncase 3:\ndefault:\n" + g.stmts(1) + "}"
 	case 13:
 		return "switch " + g.id() + " := " + g.id() + ".(type) {\ncase int:\n" + g.stmts(1) + "case *T, nil:\n}"
 	case 14:
@@ -191,7 +223,7 @@ func (g *gen) stmt() string {
 	case 24:
 		return g.block()
 	case 25:
-		return g.expr()
+		return "_ = " + g.expr()
 	case 26:
 		return g.id() + "." + g.id() + " " + g.expr() + ", " + g.expr()
 	case 27:
@@ -201,7 +233,7 @@ func (g *gen) stmt() string {
 	case 29:
 		return g.id() + "[" + g.expr() + "] = " + g.expr()
 	case 30:
-		return "if " + g.expr() + " {\n" + g.stmts(1) + "} else {\n" + g.stmts(1) + "}"
+		return "if " + g.hexpr() + " {\n" + g.stmts(1) + "} else {\n" + g.stmts(1) + "}"
 	default:
 		return g.id() + " = " + g.expr()
 	}
@@ -228,7 +260,7 @@ func (g *gen) decl() string {
 	case 8:
 		return "type (\nA = int\nB []string\nC map[string]*T\n)"
 	case 9:
-		return "func F[T any, K comparable](x T, k K) T {\nreturn x\n}"
+		return "func " + g.id() + "(f func(a, b int) (int, error), ch <-chan int) {\n" + g.stmts(2) + "}"
 	case 10:
 		return "var " + g.id() + " = " + g.expr()
 	case 11:
